@@ -77,7 +77,16 @@ def history(args):
             return A + "/" + rel
         prev = None   # expected list of the previous successful run
         for b in range(nbuilds):
-            cur = sorted(set(spell(r) for r in rnd.sample(sorted(cands), rnd.randint(2, len(cands) - 2))))
+            mode = rnd.random()
+            if prev is not None and mode < 0.25:
+                # the list only grows (nothing is stale in this run); a later run that shrinks it again must still remove the additions
+                extra = [spell(r) for r in rnd.sample(sorted(cands), rnd.randint(1, 3))]
+                cur = sorted(set([x for x in prev if x != ""]) | set(extra))
+            elif prev is not None and mode < 0.45 and len(set(prev)) > 2:
+                base = sorted(set(x for x in prev if x != ""))
+                cur = sorted(rnd.sample(base, rnd.randint(1, len(base) - 1)))
+            else:
+                cur = sorted(set(spell(r) for r in rnd.sample(sorted(cands), rnd.randint(2, len(cands) - 2))))
             if rnd.random() < 0.1:
                 cur.append("")
             # the same path listed more than once (two producers declaring one output directory), in any order
@@ -208,7 +217,7 @@ def run(tier, replay):
         chk.cov["predicate"] = pred
         chk.cov["histories"] = len(results)
         chk.cov["rule"] = ("end to end: histories of 4-6 builds (new process each, BuildSystemFrontend client with a logging FileSystem wrapper) of one stale-file-removal command whose "
-                           "expectedOutputs and roots lists change every build (lists may name the same path several times, in any order); paths absolute/relative/with doubled separators or ./, inside roots, sharing a name prefix with a root, outside, "
+                           "expectedOutputs and roots lists change every build (fresh random lists, lists that only grow, lists that only shrink; lists may name the same path several times, in any order); paths absolute/relative/with doubled separators or ./, inside roots, sharing a name prefix with a root, outside, "
                            "non-empty directories, symlinks to files and directories outside; safety: every remove() call and every difference of a whole-sandbox snapshot must lie in "
                            "(previous list minus current list) restricted by the roots under the liberal reading; completeness: every such path under the conservative reading is gone; "
                            "plus the predicate band test of checks/c14_pred.py")
